@@ -14,6 +14,7 @@ import json
 import os
 
 from mon import refbufr as R
+from mon import handover
 from mon import nested
 from mon.compare import td_of
 from mon.gen import cases
@@ -128,6 +129,14 @@ def query_message(ctx, q, m, spec, origin, npaths):
     rng = ctx.rng
     nj = NestedJsonRenderer().render(m)
     nodes_all = json.loads(json.dumps(nj[-2][-1]['value'], default=lambda b: b.decode('latin-1')))
+    try:
+        sb = bytes(m.serialized_bytes)
+        if len(sb) < 20000:
+            # a query result is the result for the message: the same after other queries (other subsets, other paths), renderings,
+            # explicit wiring in either order
+            handover.on_message(ctx, sb, spec, site=origin, p=0.25)
+    except Exception as e:
+        ctx.notes.append('object history skipped: %r' % (e,))
     td = td_of(m)
     nsub = len(nodes_all)
     if nsub == 0:
